@@ -1344,5 +1344,7 @@ fn main() {
             writeln!(out, "{}", l).unwrap();
         }
         writeln!(out, "END").unwrap();
+        // (a later case may wedge or abort the process: what is finished must not be lost with the buffer)
+        out.flush().unwrap();
     }
 }
